@@ -1199,6 +1199,68 @@ def factory_cases(draw):
     return case
 
 
+# ---------------------------------------------------------------------------- AS paths built from segments, over both AS widths
+
+
+def check_aspath(case: dict) -> dict:
+    """a path made with ASPath.make_aspath (all four segment types, AS numbers on both sides of 65535) is written for the session
+    (AS_PATH alone, or AS_PATH with AS_TRANS + AS4_PATH for a 2-byte peer) and read back through AttributeCollection.unpack,
+    which is where RFC 6793 4.2.3 puts the two halves together: the path, its text and its JSON must come back, and re-encode alike"""
+    exa.reset_global_state()
+    from exabgp.bgp.message.open.asn import ASN
+    from exabgp.bgp.message.update.attribute.aspath import AS2Path, CONFED_SEQUENCE, CONFED_SET, SEQUENCE, SET
+
+    kinds = {1: SET, 2: SEQUENCE, 3: CONFED_SEQUENCE, 4: CONFED_SET}
+    asn4 = bool(case['asn4'])
+    _conf, _neighbor, neg = session('plain' if asn4 else 'asn2')
+    segments = [kinds[t]([ASN(a) for a in asns]) for t, asns in case['segments']]
+    what = f'as-path {case["segments"]} asn4={asn4}'
+    try:
+        original = AS2Path.make_aspath(segments, asn4=True)
+        wire = bytes(original.pack_attribute(neg))
+    except Exception as exc:  # noqa: BLE001
+        raise V(exception_signature('aspath:pack', exc), f'{exc!r} for {what}') from exc
+    try:
+        decoded = AttributeCollection.unpack(wire, neg)
+        got = decoded[Attribute.CODE.AS_PATH]
+    except Exception as exc:  # noqa: BLE001
+        raise V(exception_signature('aspath:own-bytes-refused', exc), f'{exc!r} reading back {wire.hex()} written for {what}') from exc
+
+    def shape(p):
+        return [(seg.ID, [int(a) for a in seg]) for seg in p.aspath]
+
+    if shape(got) != shape(original):
+        raise V('aspath:round-trip-differs', f'{what}: wrote {wire.hex()}, read back {shape(got)}')
+    for name, fn in (('text', lambda p: p.string()), ('json', lambda p: p.json())):
+        if fn(got) != fn(original):
+            raise V(f'aspath:{name}:changes-across-round-trip', f'{what}: {fn(original)[:200]} became {fn(got)[:200]}')
+    again = bytes(got.pack_attribute(neg))
+    if again != wire:
+        raise V('aspath:repack-differs', f'{what}: wrote {wire.hex()}, what was read back packs as {again.hex()}')
+    big = any(a > 65535 for _, asns in case['segments'] for a in asns)
+    confed = any(t in (3, 4) for t, _ in case['segments'])
+    classes = ['attr:2', 'aspath-from-segments', f'aspath:asn4:{asn4}'] + (['aspath:4-byte-asn'] if big else []) + (['aspath:confederation-segment'] if confed else [])
+    if big and not asn4:
+        classes.append('aspath:as4-path-written')
+        if confed:
+            classes.append('aspath:as4-path-written:confederation-segment')
+    return {'nontrivial': bool(case['segments']), 'classes': classes}
+
+
+@st.composite
+def aspath_cases(draw):
+    asn = st.one_of(st.sampled_from([1, 64512, 65535, 65536, 4200000001, 4294967295]), st.integers(1, 65535), st.integers(65536, 4294967295))
+    n = draw(st.integers(1, 4))
+    segments = []
+    for i in range(n):
+        # confederation segments lead a path (RFC 5065); sets and sequences follow in any order
+        t = draw(st.sampled_from([3, 3, 4] if i == 0 and draw(st.integers(0, 2)) == 0 else [2, 2, 2, 1]))
+        size = draw(st.sampled_from([1, 1, 2, 3, 5]))
+        # RFC 6793 3: confederation segments never go into AS4_PATH, so a member AS above 65535 towards a 2-byte peer has no encoding
+        segments.append([t, draw(st.lists(st.integers(1, 65535) if t in (3, 4) else asn, min_size=size, max_size=size))])
+    return {'kind': 'aspath', 'segments': segments, 'asn4': draw(st.sampled_from([False, False, True]))}
+
+
 # ---------------------------------------------------------------------------- histories: what was decoded before must not matter
 
 _ISO: list = []
@@ -1341,6 +1403,8 @@ def check(case: dict) -> dict:
         return check_factory(case)
     if kind == 'history':
         return check_history(case)
+    if kind == 'aspath':
+        return check_aspath(case)
     raise RuntimeError(f'harness: unknown case kind {kind}')
 
 
@@ -1581,6 +1645,7 @@ ENGINES = [
     Engine('attr', attr_cases, check, quick=900, thorough=25000, batch=450),
     Engine('text', text_cases, check, quick=250, thorough=6000, batch=125),
     Engine('factory', factory_cases, check, quick=400, thorough=10000, batch=200),
+    Engine('aspath', aspath_cases, check, quick=300, thorough=8000, batch=150),
     Engine('history', history_cases, check, quick=50, thorough=4000, batch=50, fixed_cases=history_fixed_cases),
 ]
 
